@@ -146,9 +146,9 @@ func checkC14(r *Run) {
 	var ops []op
 	{
 		var present []octosql.Value
-		body := t.Block(4*maxSteps + 4)
+		body := t.Block(8*maxSteps + 8)
 		for i := 0; i < maxSteps; i++ {
-			sb := body.Block(4)
+			sb := body.Block(8)
 			if sb.Draw(maxSteps+1) == 0 {
 				break
 			}
